@@ -93,13 +93,14 @@ func mergeHist(j *job, s string) {
 // isMulti: a job with many cases, reported as a histogram line
 func isMulti(text string) bool {
 	return strings.HasPrefix(text, "batch ") || strings.HasPrefix(text, "allfmt ") || strings.HasPrefix(text, "fields ") ||
-		strings.HasPrefix(text, "types ") || strings.HasPrefix(text, "runs ") || strings.HasPrefix(text, "near ")
+		strings.HasPrefix(text, "types ") || strings.HasPrefix(text, "runs ") || strings.HasPrefix(text, "near ") ||
+		strings.HasPrefix(text, "chunk ")
 }
 
 func reqFormatOf(text string) string {
 	ws := strings.Fields(text)
 	switch {
-	case len(ws) >= 3 && (ws[0] == "batch" || ws[0] == "fields" || ws[0] == "types" || ws[0] == "runs" || ws[0] == "near"):
+	case len(ws) >= 3 && (ws[0] == "batch" || ws[0] == "fields" || ws[0] == "types" || ws[0] == "runs" || ws[0] == "near" || ws[0] == "chunk"):
 		return ws[2]
 	case len(ws) >= 4 && (ws[0] == "d" || ws[0] == "i"):
 		return ws[3]
